@@ -17,9 +17,9 @@ Open Scope string_scope. Open Scope list_scope.
    [resolve p] = the path ResolvePath returns for the requested p (None: os.ErrNotExist);
    [content rp] = what parse learns from the file at rp: a marker (which file it is: the harness
    gives every file one package of its own) and the `include:` field ("" = none); None = the path is
-   a directory / unreadable / does not decode. One unit of fuel per file loaded. Nothing in the source
-   bounds the chain: OutOfFuel stands for the recursion that does not end. Result: the markers of the
-   files loaded, outermost first. *)
+   a directory / unreadable / does not decode. One unit of fuel per file loaded. In [chain_r] (the code before
+   fix 43ae291) nothing bounds the chain: OutOfFuel stands for the recursion that does not end. Result: the
+   markers of the files loaded, outermost first. *)
 Section IncludeChain.
 Variable resolve : string -> option string.
 Variable content : string -> option (string * string).
@@ -39,7 +39,8 @@ Fixpoint chain_r (fuel : nat) (rp : string) : res (list string) :=
   end.
 Definition chain (fuel : nat) (p : string) : res (list string) :=
   match resolve p with None => Err | Some rp => chain_r fuel rp end.
-(* fixes/C15-F6.patch: Load keeps the resolved paths being loaded (as text) and refuses one it holds *)
+(* fix 43ae291 (was fixes/C15-F6.patch): Load keeps the resolved paths being loaded (as text) and refuses one it holds.
+   [chain_r_fixed] / [chain_fixed] are the code today, [chain_r] / [chain] what it was before (hypothetical). *)
 Fixpoint chain_r_fixed (fuel : nat) (seen : list string) (rp : string) : res (list string) :=
   match fuel with
   | O => OutOfFuel
@@ -109,10 +110,13 @@ Definition file_content (fs : cfs) (rp : string) : option (string * string) :=
   | Some (NFile m (Some inc)) => Some (m, inc)
   | _ => None
   end.
+(* ImageConfiguration.Load as it is since fix 43ae291: the resolved paths being loaded travel in the context
+   and one that is met again is an error *)
 Definition load_config (fuel : nat) (fs : cfs) (incs : list string) (p : string) : res (list string) :=
-  chain (resolve_path fs incs) (file_content fs) fuel p.
-Definition load_config_fixed (fuel : nat) (fs : cfs) (incs : list string) (p : string) : res (list string) :=
   chain_fixed (resolve_path fs incs) (file_content fs) fuel p.
+(* ... and as it was before the fix (hypothetical now): nothing bounds the chain (finding C15-F6, fixed) *)
+Definition load_config_unfixed (fuel : nat) (fs : cfs) (incs : list string) (p : string) : res (list string) :=
+  chain (resolve_path fs incs) (file_content fs) fuel p.
 (* every resolved path a file of the tree can send the loader to *)
 Definition successors (fs : cfs) (incs : list string) : list string :=
   flat_map (fun f => match snd (snd f) with
